@@ -10,6 +10,6 @@ rsync -a --exclude .git --exclude .bin --exclude replays --exclude evidence --ex
 sed -i "s#=> /repo#=> $tree#" $scratch/harness/go.mod
 sed -i "s#cp /repo/go.sum#cp $tree/go.sum#" $scratch/check
 mkdir -p $scratch/evidence $scratch/replays
-out=$(cd $scratch && ./check $id $tier 2>&1); rc=$?
+out=$(cd $scratch && VERIF_REPO=$tree ./check $id $tier 2>&1); rc=$?
 echo "triage $id rc=$rc : $(echo "$out" | grep -E '^(VIOLATION|BROKEN|OK)' | head -2 | cut -c1-160 | tr '\n' ' ') $(echo "$out" | grep signature | head -4 | tr '\n' ' ' | cut -c1-400)"
 rm -rf $scratch
